@@ -11,11 +11,11 @@ AUXK = ["polygon", "segment", "tangent", "ppolygon"]
 HSHAPES = [[], [2], [2, 3]]
 OPS = ["copy", "apply", "reshape", "flatten", "index", "setitem", "stack", "combine", "astype"]
 QUERIES = {
-    "polygon": ["coords", "get_edges", "get_vertices", "edge_circles", "circle_parameters", "edge_ideal", "self_hyperboloid", "self_distance"],
+    "polygon": ["coords", "get_edges", "get_vertices", "edge_circles", "circle_parameters", "edge_ideal", "self_hyperboloid", "self_distance", "helpers_on_own_arrays"],
     "segment": ["coords", "circle_parameters", "endpoint_coords", "ideal_endpoint_coords", "geodesic", "end_pair", "sphere_parameters",
-                "endpoint_distance", "endpoint_origin_to", "self_hyperboloid", "self_distance"],
+                "endpoint_distance", "endpoint_origin_to", "self_hyperboloid", "self_distance", "helpers_on_own_arrays"],
     "tangent": ["coords", "normalized", "origin_to", "angle", "point_along", "isometry_to", "point_vector", "base_distance",
-                "self_hyperboloid", "self_distance"],
+                "self_hyperboloid", "self_distance", "helpers_on_own_arrays"],
     "ppolygon": ["p_edges", "p_vertices", "p_affine", "p_chart"],
 }
 TOL = 1e-6
@@ -582,6 +582,57 @@ class Hist:
                 return False
         return True
 
+    @staticmethod
+    def frames_of(arr):
+        """the stored array itself (or a VIEW of its first two rows per unit) when it is a stack of valid partial flags for the module-level
+        frame helpers: real floating-point data, first row timelike, second row with a non-negligible component orthogonal to the first; else None"""
+        if not isinstance(arr, np.ndarray) or arr.dtype.kind != "f" or arr.ndim < 2 or arr.shape[-2] < 2 or arr.size == 0:
+            return None
+        fr = arr if arr.shape[-2] == 2 else arr[..., :2, :]
+        if not np.all(np.isfinite(fr)):
+            return None
+        a, b = np.array(fr[..., 0, :], dtype=float), np.array(fr[..., 1, :], dtype=float)
+        mink = lambda x, y: -x[..., 0] * y[..., 0] + np.sum(x[..., 1:] * y[..., 1:], axis=-1)
+        aa = mink(a, a)
+        if not np.all(aa < -1e-3 * np.sum(a * a, axis=-1)):
+            return None
+        r = b - (mink(a, b) / aa)[..., None] * a
+        if not np.all(mink(r, r) > 1e-6 * np.sum(b * b, axis=-1)) or not np.all(np.sum(b * b, axis=-1) > 0):
+            return None
+        return fr
+
+    def helpers_on_own_arrays(self, X):
+        """the module-level helpers of geometry_tools.utils / hyperbolic are handed the object's OWN stored arrays (as the library's methods and as
+        user code do: utils.find_isometry(seg.minkowski, seg.proj_data)); the snapshot taken before is compared afterwards by `unmoved`.
+        (utils.normalize is not in the list: rescaling rows in place by positive factors is its documented way of working.)"""
+        done = False
+        for arr in (X.proj_data, X.aux_data):
+            fr = self.frames_of(arr)
+            if fr is None:
+                continue
+            done = True
+            form = X.minkowski
+            utils.indefinite_orthogonalize(form, fr)
+            utils.find_isometry(form, fr)
+            utils.find_isometry(form, fr, force_oriented=True)
+            sz = np.sqrt(np.sum(np.asarray(fr, dtype=float) ** 2, axis=-1))
+            if np.all((sz > 1e-3) & (sz < 1e3)):
+                # (the complement is found as a kernel with an ABSOLUTE tolerance on singular values: representatives of ordinary size only)
+                utils.orthogonal_complement(fr, form)
+                utils.orthogonal_complement(fr, form, normalize=None)
+            utils.projection(fr[..., 1, :], fr[..., 0, :], form)
+            utils.apply_bilinear(fr[..., 0, :], fr[..., 1, :], form)
+            utils.normsq(fr, form)
+            utils.matrix_product(fr, form)
+            for idx in itertools.islice(np.ndindex(*fr.shape[:-2]), 3):
+                fl = fr[idx]                                  # one partial flag (a view of the stored array); timelike_to wants timelike rows only
+                if not (-fl[1, 0] ** 2 + np.sum(fl[1, 1:] ** 2) < -1e-3 * np.sum(fl[1] ** 2)):
+                    fl = fl[:1]
+                H.timelike_to(fl)
+                H.timelike_to(fl, force_oriented=True)
+                H.project_to_hyperboloid(fr[idx][0], fr[idx][1])
+        return done
+
     def query(self, q, step):
         X, g, kind = self.cur, self.g, self.kind
         if len(self.objs) > 1 and g.random() < 0.25:
@@ -691,6 +742,9 @@ class Hist:
                     p = H.Point(X.point)
                     p.distance(H.Point.get_origin(self.n, tuple(X.shape)))
                     p.origin_to()
+                elif q == "helpers_on_own_arrays":
+                    if not self.helpers_on_own_arrays(X):
+                        X.coords("projective")
                 else:
                     raise ValueError(q)
             except Exception as e:
@@ -839,6 +893,21 @@ def run_pq(inp):
             H.timelike_to(t)
             if not O.rows_proj_eq(t, t0, 1e-9):
                 bad.append({"what": "caller_array_moved", "query": "hyperbolic.timelike_to(array)"})
+        # the frame helpers on a caller-supplied stack of partial flags (point, direction): float64 and float32, composite shapes
+        for dt, tl in ((np.float64, 1e-9), (np.float32, 1e-4)):
+            fr = np.stack([np.concatenate([np.ones(shape + (1,)), k1], axis=-1) * np.abs(sc), g.normal(size=shape + (n + 1,))], axis=-2).astype(dt)
+            f0 = fr.copy()
+            form = H.minkowski(n + 1)
+            for nm, call in (("utils.indefinite_orthogonalize(form, frames)", lambda: utils.indefinite_orthogonalize(form, fr)),
+                             ("utils.find_isometry(form, frames)", lambda: utils.find_isometry(form, fr)),
+                             ("utils.find_isometry(form, frames, force_oriented=True)", lambda: utils.find_isometry(form, fr, force_oriented=True)),
+                             ("utils.orthogonal_complement(frames, form)", lambda: utils.orthogonal_complement(fr, form)),
+                             ("utils.projection(rows, rows, form)", lambda: utils.projection(fr[..., 1, :], fr[..., 0, :], form))):
+                call()
+                if not O.rows_proj_eq(fr, f0, tl):
+                    bad.append({"what": "caller_array_moved", "query": nm, "dtype": np.dtype(dt).name,
+                                "expected": "the caller's frames represent the same vectors after the call"})
+                    break
         # fixed points of an isometry: eig must not touch the matrix
         T = O.isometries(g, shape, 2)
         L = H.Isometry.standard_loxodromic(2, 2.0)
@@ -1101,9 +1170,12 @@ def clauses():
                what="histories over {copy, apply, reshape, flatten, index, set item, stack, combine, astype} on polygons, segments, tangent vectors of shapes (), (2,), (2,3) "
                     "interleaved with read-only queries (random depth <= 8 in quick; in thorough EVERY history of depth <= 4 over {apply, reshape, flatten, index, set item, stack, combine} "
                     "with copy/astype inserted at random): "
-                    "after each step every object ever produced has aux_data ~ fresh recomputation; around each query every stored row and every caller-supplied array is unchanged as a projective point (tangent directions: up to a positive scalar)"),
+                    "after each step every object ever produced has aux_data ~ fresh recomputation; around each query every stored row and every caller-supplied array is unchanged as a projective point (tangent directions: up to a positive scalar); "
+                    "among the queries: the module-level frame helpers (indefinite_orthogonalize, find_isometry, orthogonal_complement, projection, timelike_to, project_to_hyperboloid, "
+                    "matrix_product, apply_bilinear, normsq) handed the object's OWN stored arrays or views of them"),
         Clause("point_queries", "oracle", gen_pq, run_pq, O.judge_bad, site="hyperbolic.Point.coords/distance/origin_to, hyperbolic.hyperboloid_coords/spacelike_to/timelike_to",
                budget={"quick": 300, "thorough": 3000},
                what="coordinates in every model, distance, origin_to, unit_tangent_towards, fixed points on composite points (either sign of the representative): Klein coordinates of "
-                    "the objects unchanged, stored rows unchanged projectively, caller-supplied arrays (constructor inputs, arguments of module-level functions) keep their points"),
+                    "the objects unchanged, stored rows unchanged projectively, caller-supplied arrays (constructor inputs, arguments of module-level functions, float64 and float32 stacks of frames given to "
+                    "indefinite_orthogonalize / find_isometry / orthogonal_complement / projection) keep their points"),
     ]
